@@ -125,6 +125,8 @@ Proof. apply st_remove_children_all. Qed.
 Lemma st_became_unnecessary fuel n : pres Rst (became_unnecessary fuel n).
 Proof. apply st_remove_children_all. Qed.
 Global Hint Resolve st_remove_children st_check_if_unnecessary st_became_unnecessary : pres_st.
+Lemma st_remove_child_edge fuel a b c : pres Rst (remove_child_edge fuel a b c). Proof. prim remove_child_edge. Qed.
+Global Hint Resolve st_remove_child_edge : pres_st.
 
 Lemma st_invalidate_node fuel n : pres Rst (invalidate_node fuel n).
 Proof. revert n; induction fuel as [|f IH]; intros n; simpl; go_st. Qed.
@@ -230,6 +232,8 @@ Global Hint Resolve st_recompute : pres_st.
 (* Api.v, everything below stabilise *)
 Lemma st_observe n : pres Rst (observe n). Proof. prim observe. Qed.
 Lemma st_add_new_observers fuel : pres Rst (add_new_observers fuel). Proof. prim add_new_observers. Qed.
+Lemma st_unlink_observer fuel o ob : pres Rst (unlink_observer fuel o ob). Proof. prim unlink_observer. Qed.
+Global Hint Resolve st_unlink_observer : pres_st.
 Lemma st_unlink_disallowed fuel : pres Rst (unlink_disallowed_observers fuel). Proof. prim unlink_disallowed_observers. Qed.
 Lemma st_disallow o : pres Rst (disallow_future_use o). Proof. prim disallow_future_use. Qed.
 Global Hint Resolve st_observe st_add_new_observers st_unlink_disallowed st_disallow : pres_st.
